@@ -910,10 +910,26 @@ func grammarSuite(r *rng, wild bool) string {
 		if r.chance(1, 8) {
 			n = pick(r, []string{"0", "-1", "+5", "01", "", "x", "5124095576030431", "5124095576030432", "153722867280912931", "9223372036854775807", "9223372036854775808", "2562047788015216"})
 		}
-		toks = append(toks, "T"+n+pick(r, []string{"S", "M", "H"}))
+		unit := pick(r, []string{"S", "M", "H"})
+		if r.chance(1, 6) {
+			unit = pick(r, []string{"X", "m", "s", "h", "D", "0", "2", "", "MM", " "})
+		}
+		toks = append(toks, "T"+n+unit)
 	}
 	return "OCRA-1:HOTP-" + hash + "-" + digits + ":" + strings.Join(toks, "-")
 }
+
+var malformedSuites = []string{"", ":", "::", ":::", "OCRA-1", "OCRA-1:HOTP-SHA1-6", "OCRA-1:HOTP-SHA1-6:", "OCRA-1:HOTP-SHA1-6:QN08:junk",
+	"OCRA-10:HOTP-SHA1-6:QN08", "OCRA-2:HOTP-SHA1-6:QN08", "ocra-1:HOTP-SHA1-6:QN08", "OCRA-1 :HOTP-SHA1-6:QN08", "OCRA-1:HOTP-SHA1-6:QN08 ",
+	"OCRA-1:TOTP-SHA1-6:QN08", "OCRA-1:HOTP-MD5-6:QN08", "OCRA-1:HOTP-SHA384-6:QN08", "OCRA-1:HOTP-SHA1:QN08", "OCRA-1:HOTP-SHA1-6-7:QN08",
+	"OCRA-1:HOTP-SHA-1-6:QN08", "OCRA-1:hotp-sha1-6:qn08", "OCRA-1:HOTP-SHA1-6:QN8", "OCRA-1:HOTP-SHA1-6:QN088", "OCRA-1:HOTP-SHA1-6:QN12",
+	"OCRA-1:HOTP-SHA1-6:QX08", "OCRA-1:HOTP-SHA1-6:Q", "OCRA-1:HOTP-SHA1-6:X", "OCRA-1:HOTP-SHA1-6:C-", "OCRA-1:HOTP-SHA1-6:-C", "OCRA-1:HOTP-SHA1-6:C--QN08",
+	"OCRA-1:HOTP-SHA1-6:QN08-PSHA", "OCRA-1:HOTP-SHA1-6:QN08-PSHA2", "OCRA-1:HOTP-SHA1-6:QN08-P", "OCRA-1:HOTP-SHA1-6:QN08-T", "OCRA-1:HOTP-SHA1-6:QN08-TM",
+	"OCRA-1:HOTP-SHA1-6:QN08-T1", "OCRA-1:HOTP-SHA1-6:QN08-T1X", "OCRA-1:HOTP-SHA1-6:QN08-T1m", "OCRA-1:HOTP-SHA1-6:QN08-t1M", "OCRA-1:HOTP-SHA1-6:QN08-T0M",
+	"OCRA-1:HOTP-SHA1-6:QN08-T-1M", "OCRA-1:HOTP-SHA1-6:QN08-SHA1", "OCRA-1:HOTP-SHA1-6:QN08-QN10", "OCRA-1:HOTP-SHA1-6:QN10-QNx", "OCRA-1:HOTP-SHA1-6:C-C",
+	"OCRA-1:HOTP-SHA1-6:T1M-QN08-C", "OCRA-1:HOTP-ſHA1-6:QN08", "OCRA-1:HOTP-SHA1-6:QıN08", "OCRA-1:HOTP-SHA1-6:ſ064-QN08", "OCRA-1:HOTP-SHA1-6:QN08-PſHA1",
+	"OCRA-1:HOTP-SHA1-6:QN08\x00", "OCRA-1:HOTP-SHA1-6:QN\xff\xfe", "OCRA-1:HOTP-SHA1-6:QNé08", "OCRA-1:HOT", "OCRA-1:HOTP-:QN08", "OCRA-1:HOTP-SHA:QN08", "OCRA-1:HOTP-SHA-:QN08",
+	"OCRA-1:HOTP-SHA1-:QN08", "OCRA-1:HOTP-SHA1-6 :QN08", "OCRA-1:HOTP-SHA1- 6:QN08"}
 
 func genC15(r *rng, n int, emit func(string)) {
 	emit("listsuites")
@@ -941,18 +957,7 @@ func genC15(r *rng, n int, emit func(string)) {
 			}
 		}
 	}
-	malformed := []string{"", ":", "::", ":::", "OCRA-1", "OCRA-1:HOTP-SHA1-6", "OCRA-1:HOTP-SHA1-6:", "OCRA-1:HOTP-SHA1-6:QN08:junk",
-		"OCRA-10:HOTP-SHA1-6:QN08", "OCRA-2:HOTP-SHA1-6:QN08", "ocra-1:HOTP-SHA1-6:QN08", "OCRA-1 :HOTP-SHA1-6:QN08", "OCRA-1:HOTP-SHA1-6:QN08 ",
-		"OCRA-1:TOTP-SHA1-6:QN08", "OCRA-1:HOTP-MD5-6:QN08", "OCRA-1:HOTP-SHA384-6:QN08", "OCRA-1:HOTP-SHA1:QN08", "OCRA-1:HOTP-SHA1-6-7:QN08",
-		"OCRA-1:HOTP-SHA-1-6:QN08", "OCRA-1:hotp-sha1-6:qn08", "OCRA-1:HOTP-SHA1-6:QN8", "OCRA-1:HOTP-SHA1-6:QN088", "OCRA-1:HOTP-SHA1-6:QN12",
-		"OCRA-1:HOTP-SHA1-6:QX08", "OCRA-1:HOTP-SHA1-6:Q", "OCRA-1:HOTP-SHA1-6:X", "OCRA-1:HOTP-SHA1-6:C-", "OCRA-1:HOTP-SHA1-6:-C", "OCRA-1:HOTP-SHA1-6:C--QN08",
-		"OCRA-1:HOTP-SHA1-6:QN08-PSHA", "OCRA-1:HOTP-SHA1-6:QN08-PSHA2", "OCRA-1:HOTP-SHA1-6:QN08-P", "OCRA-1:HOTP-SHA1-6:QN08-T", "OCRA-1:HOTP-SHA1-6:QN08-TM",
-		"OCRA-1:HOTP-SHA1-6:QN08-T1", "OCRA-1:HOTP-SHA1-6:QN08-T1X", "OCRA-1:HOTP-SHA1-6:QN08-T1m", "OCRA-1:HOTP-SHA1-6:QN08-t1M", "OCRA-1:HOTP-SHA1-6:QN08-T0M",
-		"OCRA-1:HOTP-SHA1-6:QN08-T-1M", "OCRA-1:HOTP-SHA1-6:QN08-SHA1", "OCRA-1:HOTP-SHA1-6:QN08-QN10", "OCRA-1:HOTP-SHA1-6:QN10-QNx", "OCRA-1:HOTP-SHA1-6:C-C",
-		"OCRA-1:HOTP-SHA1-6:T1M-QN08-C", "OCRA-1:HOTP-ſHA1-6:QN08", "OCRA-1:HOTP-SHA1-6:QıN08", "OCRA-1:HOTP-SHA1-6:ſ064-QN08", "OCRA-1:HOTP-SHA1-6:QN08-PſHA1",
-		"OCRA-1:HOTP-SHA1-6:QN08\x00", "OCRA-1:HOTP-SHA1-6:QN\xff\xfe", "OCRA-1:HOTP-SHA1-6:QNé08", "OCRA-1:HOT", "OCRA-1:HOTP-:QN08", "OCRA-1:HOTP-SHA:QN08", "OCRA-1:HOTP-SHA-:QN08",
-		"OCRA-1:HOTP-SHA1-:QN08", "OCRA-1:HOTP-SHA1-6 :QN08", "OCRA-1:HOTP-SHA1- 6:QN08"}
-	for _, m := range malformed {
+	for _, m := range malformedSuites {
 		emit("nraw " + hxs(m))
 		emit("praw " + hxs(m))
 		emit("known " + hxs(m))
@@ -1136,6 +1141,185 @@ func genC16(r *rng, n int, emit func(string)) {
 			u := &url.URL{Scheme: pick(r, []string{"otpauth", "", "a"}), Host: pick(r, []string{"totp", "", "h x", "é"}), Path: pick(r, []string{"", "/", "*"}) + urlString(r, 3, false),
 				RawPath: pick(r, []string{"", "", "/x", "/%41"}), RawQuery: pick(r, []string{"", "a=b", "x"}), ForceQuery: r.chance(1, 5), Fragment: pick(r, []string{"", "", "f g", "f"})}
 			emit("ustr " + fmtURL(u))
+		}
+	}
+}
+
+// ---------------- C10: hostile arguments ----------------
+func init() { streams["c10"] = genC10 }
+
+func hostileString(r *rng) string {
+	switch r.intn(10) {
+	case 0:
+		return ""
+	case 1:
+		return string(r.bytes(1 + r.intn(40))) // arbitrary bytes, mostly invalid UTF-8
+	case 2:
+		return strings.Repeat(pick(r, []string{"A", "=", " ", "\n", "7", "ſ", "\xff", "-", ":", "%"}), pick(r, []int{1, 7, 8, 9, 255, 256, 4096}))
+	case 3:
+		return "\x00" + string(r.bytes(r.intn(8)))
+	case 4:
+		return pick(r, []string{"é", " ", " ABCD ", "ı", "ſ", "\xc5", "\xe2\x80", "日本語", "\ufeff"})
+	default:
+		s, _ := genSecret(r)
+		return s
+	}
+}
+
+func hostileParam(r *rng) *otp.Param {
+	if r.chance(1, 8) {
+		return nil
+	}
+	big := []uint64{0, 1, 2, 10, 11, 29, 30, 31, 255, 256, 1<<31 - 1, 1 << 31, 1<<32 - 1, 1 << 32, 1<<63 - 1, 1 << 63, 1<<64 - 1}
+	p := &otp.Param{Digits: otp.Digits(r.intn(256)), Algorithm: otp.Algorithm(r.intn(256)), Period: uint(pick(r, big)), Skew: uint(pick(r, []uint64{0, 1, 2, 9, 10}))}
+	if r.chance(1, 2) {
+		p.Digits = otp.Digits(pick(r, []uint64{0, 1, 5, 6, 8, 9, 10, 11, 12, 64, 128, 255}))
+	}
+	if r.chance(1, 2) {
+		p.Algorithm = otp.Algorithm(pick(r, []uint64{0, 1, 2, 3, 4, 127, 128, 255}))
+	}
+	if r.chance(1, 6) {
+		p.Skew = uint(pick(r, []uint64{11, 12, 255, 1 << 20, 1 << 32, 1<<63 - 1, 1 << 63, 1<<64 - 1}))
+	}
+	return p
+}
+
+func hostileTime(r *rng) string {
+	sec := pick(r, []int64{0, 1, -1, 59, -59, 1 << 31, -(1 << 31), 1 << 32, 1<<62 - 1, 1 << 62, 1<<63 - 1, -(1 << 63), -62135596800, 253402300800, 9223372036})
+	if r.chance(1, 2) {
+		sec = int64(r.next())
+	}
+	return genTime(r, sec)
+}
+
+func hostileSuite(r *rng) otp.SuiteConfig {
+	ints := []int{-1 << 63, -1 << 31, -2, -1, 0, 1, 2, 3, 4, 5, 6, 7, 8, 9, 10, 11, 12, 64, 255, 256, 1 << 31, 1<<63 - 1}
+	c := genSuite(r, r.chance(1, 2))
+	switch r.intn(8) {
+	case 0:
+		c.Digits = pick(r, ints)
+	case 1:
+		c.Hash = otp.Algorithm(r.intn(256))
+	case 2:
+		c.Challenge = otp.ChallengeFormat(pick(r, ints))
+	case 3:
+		c.PasswordHash = otp.PasswordHashAlgorithm(pick(r, ints))
+	case 4:
+		c.TimeStep = pick(r, ints)
+	case 5:
+		c = otp.SuiteConfig{}
+	case 6:
+		c.Raw = string(r.bytes(r.intn(600)))
+	}
+	return c
+}
+
+func hostileInput(r *rng, c otp.SuiteConfig) string {
+	in := genInput(r, c, r.chance(1, 2))
+	f := func(b []byte) string {
+		switch r.intn(12) {
+		case 0:
+			return "X" // nil
+		case 1:
+			return hx(nil)
+		case 2:
+			return hx(r.bytes(pick(r, []int{1, 7, 8, 9, 19, 20, 21, 31, 32, 33, 63, 64, 65, 127, 128, 129, 140, 255, 256, 257, 4096})))
+		}
+		return hx(b)
+	}
+	return strings.Join([]string{f(in.Counter), f(in.Challenge), f(in.Password), f(in.SessionInfo), f(in.Timestamp)}, ",")
+}
+
+func genC10(r *rng, n int, emit func(string)) {
+	secret := hxs("GEZDGNBVGY3TQOJQGEZDGNBVGY3TQOJQ")
+	// every uint8 value of the two enums
+	for d := 0; d < 256; d++ {
+		emit(fmt.Sprintf("ghotp %s 1 %d,30,1,%d", secret, d, d%3))
+		emit(fmt.Sprintf("gtotp %s 59,0,0,0 %d,0,1,%d", secret, d, d%3))
+		emit(fmt.Sprintf("vhotp %s %s 1 %d,30,1,%d", secret, hxs("287082"), d, d%3))
+		emit(fmt.Sprintf("vtotp %s %s 59,0,0,0 %d,30,1,%d", secret, hxs("287082"), d, d%3))
+		emit(fmt.Sprintf("ghotp %s 1 6,30,1,%d", secret, d))
+		emit(fmt.Sprintf("vtotp %s %s 59,0,0,0 6,0,1,%d", secret, hxs("287082"), d))
+		emit(fmt.Sprintf("algname %d", d))
+		emit(fmt.Sprintf("digint %d", d))
+		emit(fmt.Sprintf("rand x00 %d", d))
+	}
+	emit("purl -")
+	emit("listsuites")
+	// 64 KiB strings
+	big := strings.Repeat("A", 65536)
+	emit("decode " + hxs(big))
+	emit("decode " + hxs(strings.Repeat("=", 65536)))
+	emit("decode " + hxs(strings.Repeat(" ", 65535)+"A"))
+	emit("ghotp " + hxs(big) + " 0 -")
+	emit("vhotp " + secret + " " + hxs(big) + " 0 -")
+	emit("nraw " + hxs(big))
+	emit("nraw " + hxs("OCRA-1:HOTP-SHA1-6:"+strings.Repeat("C-", 20000)+"QN08"))
+	emit("nraw " + hxs("OCRA-1:HOTP-SHA1-6:QN08-T"+strings.Repeat("9", 5000)+"M"))
+	emit("pchal " + hxs(strings.Repeat("9", 308)))
+	emit("pchal " + hxs(strings.Repeat("9", 309)))
+	emit("pchal " + hxs(strings.Repeat("9", 310)))
+	emit("pchal " + hxs("-"+strings.Repeat("9", 400)))
+	emit("pchal " + hxs(strings.Repeat("9", 2000)))
+	emit("pdec8a " + hxs(strings.Repeat("9", 5000)))
+	emit("phexts " + hxs(strings.Repeat("f", 65536)))
+	emit("hexin " + hxs(strings.Repeat("ab", 32768)) + " x x x x")
+	emit("lpad " + hxs("abc") + " 1048576")
+	emit("lpad " + hxs(strings.Repeat("a", 70000)) + " 5")
+	emit("uparse " + hxs("otpauth://totp/"+strings.Repeat("a%20", 16000)+":b?secret=x"))
+	for _, m := range malformedSuites {
+		emit("nraw " + hxs(m))
+	}
+	for i := 0; i < 200; i++ {
+		emit("nraw " + hxs(grammarSuite(r, r.chance(1, 2))))
+	}
+	for i := 0; i < n; i++ {
+		sec := hxs(hostileString(r))
+		if r.chance(1, 2) {
+			sec = secret
+		}
+		code := hxs(pick(r, []string{"", "0", "287082", "000000", "1234567", "12345678", "0123456789", "01234567890", "٣٤٥٦٧٨", "28708\x00", strings.Repeat("0", 255), strings.Repeat("1", 262)}))
+		switch r.intn(16) {
+		case 0:
+			emit("ghotp " + sec + " " + fmt.Sprint(genCounter(r)) + " " + fmtParam(hostileParam(r)))
+		case 1:
+			emit("vhotp " + sec + " " + code + " " + fmt.Sprint(genCounter(r)) + " " + fmtParam(hostileParam(r)))
+		case 2:
+			emit("gtotp " + sec + " " + hostileTime(r) + " " + fmtParam(hostileParam(r)))
+		case 3:
+			p := hostileParam(r)
+			emit("vtotp " + sec + " " + code + " " + hostileTime(r) + " " + fmtParam(p))
+		case 4, 5:
+			c := hostileSuite(r)
+			emit(pick(r, []string{"gocra ", "gocra_raw ", "d6287 "}) + sec + " " + fmtSuite(c) + " " + hostileInput(r, c))
+		case 6:
+			c := hostileSuite(r)
+			emit("vocra " + sec + " " + code + " " + fmtSuite(c) + " " + hostileInput(r, c))
+		case 7:
+			c := hostileSuite(r)
+			emit("svalidate " + fmtSuite(c))
+			emit("ivalidate " + fmtSuite(c) + " " + hostileInput(r, c))
+			emit("nsuite " + fmtSuite(c))
+		case 8:
+			emit(pick(r, []string{"nraw ", "praw ", "known ", "fromraws "}) + hxs(hostileString(r)))
+		case 9:
+			emit("decode " + hxs(hostileString(r)))
+		case 10:
+			emit(pick(r, []string{"pdec8a ", "pdec8b ", "phexts ", "pchal ", "digstr ", "algstr "}) + hxs(hostileString(r)))
+		case 11:
+			emit("lpad " + hxs(hostileString(r)) + " " + fmt.Sprint(pick(r, []int{0, 1, 2, 15, 16, 17, 255, 1 << 10, 1 << 20})))
+		case 12:
+			emit("hexin " + hxs(hostileString(r)) + " " + hxs(hexString(r, 40)) + " " + hxs(hostileString(r)) + " " + hxs(hexString(r, 300)) + " " + hxs(hexString(r, 20)))
+		case 13:
+			u := &url.URL{Scheme: pick(r, []string{"otpauth", "", "OTPAUTH", hostileString(r)}), Host: pick(r, []string{"totp", "hotp", "", hostileString(r)}),
+				Path: hostileString(r), RawQuery: pick(r, []string{"", "digits=" + numText(r), "period=" + numText(r), hostileString(r), "a=b;c=d&digits=%zz&period=9"}),
+				Opaque: pick(r, []string{"", "", "x"}), Fragment: pick(r, []string{"", "f"})}
+			emit("purl " + fmtURL(u))
+		case 14:
+			emit(fmt.Sprintf("gurl %s %s %s %s %d %d %d", pick(r, []string{"t", "h"}), hxs(hostileString(r)), hxs(hostileString(r)), hxs(hostileString(r)), r.intn(256), r.intn(256),
+				pick(r, []uint64{0, 1, 30, 1 << 32, 1<<63 - 1, 1 << 63, 1<<64 - 1})))
+		case 15:
+			emit("uparse " + hxs(hostileString(r)))
 		}
 	}
 }
